@@ -607,12 +607,12 @@ fn exec(op: &str, args: &[Sexp]) -> Ans {
 			let b: M2 = tr!(from_sexp(b));
 			// the hypotheses of `write_order_independent`: both sets Enigma-expressible, same entries under the same keys at every level
 			if !(writable(&a) && writable(&b) && sort_all(&a) == sort_all(&b)) { return Ans::out_of_domain(); }
-			if write_all_text(&a) != write_all_text(&b) { return Ans::fail("differs"); }
-			// the directory form too, when it can be written
-			match (dir_files(&a), dir_files(&b)) {
-				(x, y) if x == y => Ans::pass(),
-				_ => Ans::fail("differs"),
-			}
+			// inside `writable` (decided on the request) both forms can be written (`oracle-rt`, `oracle-dir-rt` fail there on an
+			// error too): two errors are not "the same text"
+			let (Some(ta), Some(tb)) = (write_all_text(&a), write_all_text(&b)) else { return Ans::fail("write_err") };
+			if ta != tb { return Ans::fail("differs"); }
+			let (Ok(fa), Ok(fb)) = (dir_files(&a), dir_files(&b)) else { return Ans::fail("io_err") };
+			if fa == fb { Ans::pass() } else { Ans::fail("differs") }
 		}
 		(_, [m]) => {
 			let m: M2 = tr!(from_sexp(m));
